@@ -500,6 +500,13 @@ def _run_probes(res, unit, ix):
             for s in d['spans']:
                 if s['line'] in probe_lines:
                     hit.add(probe_lines[s['line']])
+            if RLIMIT_PAT.search(d['message'] or ''):
+                # the solver ran out of resources while trying to derive `false`: no contradiction was found, i.e. the
+                # probe was NOT verified; recorded separately
+                fn = _fn_of(d, asm)
+                if fn:
+                    hit.add(fn)
+                    res.probes.setdefault('undetermined_rlimit', []).append('%s@%s' % (fn, where))
         if vr['out'] is None or vr['timed_out']:
             res.probes['error'] = 'probe run produced no result'
             return
